@@ -84,7 +84,12 @@ func unreachErr() error {
 }
 
 func plainErr() error {
-	switch atomic.AddUint32(&errShapeCtr, 1) % 3 {
+	switch atomic.AddUint32(&errShapeCtr, 1) % 5 {
+	case 3:
+		// errors about ONE destination or one link, not "the network is unreachable": the election goes on to the next candidate
+		return &net.OpError{Op: "dial", Net: "tcp", Err: &os.SyscallError{Syscall: "connect", Err: syscall.EHOSTUNREACH}}
+	case 4:
+		return fmt.Errorf("exchange: %w", &net.OpError{Op: "dial", Net: "udp", Err: &os.SyscallError{Syscall: "connect", Err: syscall.ENETDOWN}})
 	case 0:
 		return errors.New("down")
 	case 1:
